@@ -150,6 +150,23 @@ def check_props(pid, timeout=900):
     return True, sorted(axioms), nthm, out
 
 
+def coqchk_props(pid, timeout=900):
+    """Independent re-check (coqchk) of Props/<pid>.vo and everything it depends on; returns (ok, axioms:list[str], log).
+    Only used at the thorough tier and only for the properties whose theorems are closed under the global context (the
+    Reals / Interval based ones take many minutes)."""
+    with Lock():
+        rc, out = sh("coqchk -silent -o -Q theories AG -Q gen AGGen AG.Props.%s" % pid, cwd=COQ, timeout=timeout)
+    if rc != 0:
+        return False, [], out
+    axioms = []
+    m = re.search(r"\* Axioms:(.*?)\n\s*\n\* Constants", out, re.S)
+    if m and "<none>" not in m.group(1):
+        axioms = [l.strip() for l in m.group(1).splitlines() if l.strip()]
+    flags_ok = all(("%s: <none>" % k) in re.sub(r"\s+", " ", out) for k in
+                   ("relying on type-in-type", "relying on unsafe (co)fixpoints", "whose positivity is assumed"))
+    return flags_ok, axioms, out
+
+
 ALLOWED_AXIOMS = {
     # declared by Coq's standard library (Reals / classical logic / funext)
     "ClassicalDedekindReals.sig_forall_dec", "ClassicalDedekindReals.sig_not_dec",
@@ -425,7 +442,8 @@ def finish(res, level="proof", checker_cmd="", extra_cov=None):
         lines.append(line)
     cov = {
         "obligations": res.obligations, "discharged": res.discharged,
-        "checker_cmd": checker_cmd or "coqc (Coq 8.16.1 kernel; vm_compute) via `make` in /verif/coq and ./check %s" % pid,
+        "checker_cmd": (checker_cmd or "coqc (Coq 8.16.1 kernel; vm_compute) via `make` in /verif/coq and ./check %s" % pid)
+        + ("; re-checked by coqchk -o (independent checker) on AG.Props.%s" % pid if any("coqchk" in n and ": ok" in n for n in res.notes) else ""),
         "trusted_base": res.trusted,
         "evaluations": res.evaluations, "distinct_nontrivial": len(res.nontrivial),
         "rule": res.rule, "samples": res.samples[:6] or ["(no generated cases in this run)"],
